@@ -276,6 +276,10 @@ pub fn exec_case(st: &mut Stats, sub: &mut Subject, rs: &RunSpec, tape: &mut Tap
     st.add("events", t.log.len() as u64);
     st.add("quiescent_points", t.quiescent as u64);
     st.add("polls", t.polls as u64);
+    let pe = crate::director::POST_END_POLLS.with(|c| c.replace(0));
+    if pe > 0 {
+        st.add("polls_after_stream_end", pe);
+    }
     let hands = t.log.iter().filter(|e| matches!(e, Ev::Start(_) | Ev::Yield(_) | Ev::YieldIntr(_))).count();
     st.add("functions_handed_out", hands as u64);
     if sub.gs.n >= 2 && hands >= 2 {
